@@ -376,16 +376,28 @@ func expandHelpers(modPkgs []*packages.Package, fset *token.FileSet, readSrc fun
 							}
 							if th != nil && len(x.Results) == len(th.lhs) && len(x.Results) > 0 {
 								last := x.Results[len(x.Results)-1]
-								if id, isId := last.(*ast.Ident); isId && id.Name == "nil" {
+								isFail := false
+								if th.okIdiom {
+									if id, isId := last.(*ast.Ident); isId && id.Name == "false" {
+										isFail = true
+									} else if isId && id.Name == "true" {
+										// success
+									} else {
+										th.all = false
+									}
+								} else if id, isId := last.(*ast.Ident); isId && id.Name == "nil" {
 									// success
 								} else if definiteErrorExpr(last, x, c.fd, info) {
+									isFail = true
+								} else {
+									th.all = false
+								}
+								if isFail {
 									// a failure return: hand the values to the caller's variables and run its handler here
 									bedits = append(bedits, textEdit{coff(x.Pos()), coff(x.Pos()) + len("return"), "{ " + strings.Join(th.lhs, ", ") + " ="})
 									bedits = append(bedits, textEdit{coff(x.End()), coff(x.End()), "; " + th.handler + " }"})
 									th.n++
 									return true
-								} else {
-									th.all = false
 								}
 							} else if th != nil {
 								th.all = false
@@ -409,9 +421,9 @@ func expandHelpers(modPkgs []*packages.Package, fset *token.FileSet, readSrc fun
 				}
 				line := fset.PositionFor(c.fd.Body.Lbrace, false).Line
 				if usedLabel {
-					fmt.Fprintf(&sb, "%s: switch { default:\n//line %s:%d\n%s\n} }", label, ctf.Name(), line, body)
+					fmt.Fprintf(&sb, "%s: switch { default:\n//line %s:%d:1\n%s\n} }", label, ctf.Name(), line, body)
 				} else {
-					fmt.Fprintf(&sb, "{\n//line %s:%d\n%s\n} }", ctf.Name(), line, body)
+					fmt.Fprintf(&sb, "{\n//line %s:%d:1\n%s\n} }", ctf.Name(), line, body)
 				}
 				notes = append(notes, fmt.Sprintf("expanded helper %s at %s", c.obj.Name(), fset.PositionFor(call.Pos(), false)))
 				return sb.String(), results, true
@@ -419,7 +431,7 @@ func expandHelpers(modPkgs []*packages.Package, fset *token.FileSet, readSrc fun
 			resync := func(stmtStart, stmtEnd token.Pos, final string) string {
 				l0 := fset.PositionFor(stmtStart, false).Line
 				l1 := fset.PositionFor(stmtEnd, false).Line
-				return fmt.Sprintf("\n//line %s:%d\n%s%s", fname, l0, final, strings.Repeat("\n", l1-l0))
+				return fmt.Sprintf("\n//line %s:%d:1\n%s%s", fname, l0, final, strings.Repeat("\n", l1-l0))
 			}
 			handleList := func(list []ast.Stmt) {
 				for si, st := range list {
@@ -509,7 +521,7 @@ func expandHelpers(modPkgs []*packages.Package, fset *token.FileSet, readSrc fun
 						if prefix, res, ok := expand(call, c, recv, th); ok && len(res) == len(as.Lhs) {
 							// { <expansion>; if lhs := results; cond { ... } }
 							l0 := fset.PositionFor(x.Pos(), false).Line
-							edits = append(edits, textEdit{off(x.Pos()), off(x.Pos()), "{ " + decl + prefix + fmt.Sprintf("\n//line %s:%d\n", fname, l0)})
+							edits = append(edits, textEdit{off(x.Pos()), off(x.Pos()), "{ " + decl + prefix + fmt.Sprintf("\n//line %s:%d:1\n", fname, l0)})
 							if th != nil && th.all && th.n > 0 {
 								// only the success path reaches this point: the if (whose body handled failures) becomes the plain assignment
 								edits = append(edits, textEdit{off(x.Pos()), off(x.End()), strings.Join(th.lhs, ", ") + " = " + strings.Join(res, ", ") + strings.Repeat("\n", strings.Count(text(x.Pos(), x.End()), "\n")) + " }"})
@@ -618,6 +630,8 @@ type threadSpec struct {
 	// the caller's own test of the error is dead afterwards
 	all bool
 	n   int
+	// okIdiom: the helper's last result is a bool tested as `!ok`: a failure return is one whose last result is the literal false
+	okIdiom bool
 }
 
 func threadFor(lhs []ast.Expr, tok token.Token, ifs *ast.IfStmt, c *inlineCand, text func(a, b token.Pos) string, info *types.Info, fset *token.FileSet, readSrc func(string) []byte) (*threadSpec, string) {
@@ -641,21 +655,33 @@ func threadFor(lhs []ast.Expr, tok token.Token, ifs *ast.IfStmt, c *inlineCand, 
 			rtypes = append(rtypes, string(csrc[ctf.Offset(f.Type.Pos()):ctf.Offset(f.Type.End())]))
 		}
 	}
-	if len(rtypes) != len(lhs) || strings.TrimSpace(rtypes[len(rtypes)-1]) != "error" {
+	lastT := strings.TrimSpace(rtypes[len(rtypes)-1])
+	if len(rtypes) != len(lhs) || lastT != "error" && lastT != "bool" {
 		return nil, ""
 	}
 	errID, ok := lhs[len(lhs)-1].(*ast.Ident)
 	if !ok || errID.Name == "_" {
 		return nil, ""
 	}
-	be, ok := ifs.Cond.(*ast.BinaryExpr)
-	if !ok || be.Op != token.NEQ {
-		return nil, ""
-	}
-	cx, okx := be.X.(*ast.Ident)
-	cy, oky := be.Y.(*ast.Ident)
-	if !okx || !oky || cx.Name != errID.Name || cy.Name != "nil" {
-		return nil, ""
+	okIdiom := lastT == "bool"
+	if okIdiom {
+		ue, ok := ifs.Cond.(*ast.UnaryExpr)
+		if !ok || ue.Op != token.NOT {
+			return nil, ""
+		}
+		if id, ok := ue.X.(*ast.Ident); !ok || id.Name != errID.Name {
+			return nil, ""
+		}
+	} else {
+		be, ok := ifs.Cond.(*ast.BinaryExpr)
+		if !ok || be.Op != token.NEQ {
+			return nil, ""
+		}
+		cx, okx := be.X.(*ast.Ident)
+		cy, oky := be.Y.(*ast.Ident)
+		if !okx || !oky || cx.Name != errID.Name || cy.Name != "nil" {
+			return nil, ""
+		}
 	}
 	if len(ifs.Body.List) == 0 {
 		return nil, ""
@@ -701,7 +727,7 @@ func threadFor(lhs []ast.Expr, tok token.Token, ifs *ast.IfStmt, c *inlineCand, 
 		}
 	}
 	handler := text(ifs.Body.Lbrace+1, ifs.Body.Rbrace)
-	return &threadSpec{lhs: names, handler: strings.TrimSpace(handler), all: true}, decl
+	return &threadSpec{lhs: names, handler: strings.TrimSpace(handler), all: true, okIdiom: okIdiom}, decl
 }
 
 // definiteErrorExpr: the returned error expression cannot be nil: an error constructor call, a package-level error value, or
